@@ -223,6 +223,74 @@ func runC12(c *core.Ctx) {
 		})
 	}
 	c.Floor("C12/installed-list-owns-its-capacity", 5)
+	// ---- S4 inside a loop that hands out parts of one list to several destination lists, each pass
+	// takes its part from a position that moves with the loop: a window x[:n] / x[c:n] with a fixed
+	// start hands the same validators to every destination (duplicates in two lists, others in none)
+	nWin := 0
+	for _, f := range cone {
+		k := 0
+		core.Instrs(f, func(in ssa.Instruction) {
+			call, ok := in.(*ssa.Call)
+			if !ok {
+				return
+			}
+			b, isB := call.Call.Value.(*ssa.Builtin)
+			if !isB || b.Name() != "append" || len(call.Call.Args) != 2 {
+				return
+			}
+			src, isSl := call.Call.Args[1].(*ssa.Slice)
+			if !isSl || src.High == nil {
+				return
+			}
+			if _, isAlloc := src.X.(*ssa.Alloc); isAlloc {
+				return // varargs array
+			}
+			l := core.InnermostLoop(f, call.Block())
+			if l == nil {
+				return
+			}
+			// the destination differs between passes (a map entry / element selected by a loop-variant key)
+			variant := func(v ssa.Value) bool {
+				if v == nil {
+					return false
+				}
+				seen := map[ssa.Value]bool{}
+				var walk func(x ssa.Value, d int) bool
+				walk = func(x ssa.Value, d int) bool {
+					if x == nil || seen[x] || d > 12 {
+						return false
+					}
+					seen[x] = true
+					if ph, isPhi := x.(*ssa.Phi); isPhi && ph.Block() == l.Header {
+						return true
+					}
+					if nx, isNext := x.(*ssa.Next); isNext && l.Body[nx.Block()] {
+						return true
+					}
+					in, isIn := x.(ssa.Instruction)
+					if !isIn || !l.Body[in.Block()] {
+						return false // defined outside the loop: invariant
+					}
+					for _, op := range in.Operands(nil) {
+						if op != nil && walk(*op, d+1) {
+							return true
+						}
+					}
+					return false
+				}
+				return walk(v, 0)
+			}
+			if !variant(call.Call.Args[0]) {
+				return
+			}
+			k++
+			nWin++
+			c.Check(variant(src.Low) || variant(src.X), "C12/distributed-window-moves", fmt.Sprintf("%s/append-window#%d", fname(f), k), call.Pos(),
+				"the window handed to this pass's destination starts at a position carried by the loop",
+				"every pass appends a window of "+core.ExprKey(src.X)+" that starts at the same place (only its length varies): the same validators are handed to several destination lists and the ones the position should have advanced to are handed to none")
+		})
+	}
+	c.Floor("C12/distributed-window-moves", 1)
 	checkValidatorResultsUsed(c, "C12/validator-results-used", cone)
 	c.Floor("C12/validator-results-used", 10)
 	c.Floor("C12/no-shared-append-base", 2)
